@@ -22,6 +22,8 @@ import SymbolVerif.Proofs.Codec.EmissionDesRender
 import SymbolVerif.Proofs.Codec.EmissionDesClass
 import SymbolVerif.Proofs.Codec.EmissionDesConvClass
 import SymbolVerif.Proofs.Codec.EmissionFactory
+import SymbolVerif.Proofs.Codec.EmissionSort
+import SymbolVerif.Proofs.Codec.EmissionScalar
 namespace SymbolVerif.C15
 open SymbolVerif SymbolVerif.Codec SymbolVerif.Bytes
 
@@ -309,6 +311,86 @@ theorem create_by_name_spec (S : Schema) (a : String) (entityName : String) :
   rw [hp]
   cases ((S.children a).filter fun c => skipEmbedded (underlineName c.1) == entityName).getLast? <;> rfl
 
+/-! ### the emitted `sort`
+
+`self._x = sorted(self._x, key=…)` for a keyed array, `self._x.sort()` for a member of struct type, each under the
+member's condition (EmissionSort.lean). The statements run one after the other on the object; the model
+(`Render.sortStructStep`) treats every member on the object as it was. `sortDeclOk`: no guard reads a member an earlier
+statement has replaced; `sortObjOk`: the conditions evaluate and the members touched are lists / objects. -/
+
+/-- the text of the `sort` method is the rendering of the abstract statements -/
+theorem sort_text_is_render (S : Schema) (d : StructDef) : sortBody S d = renderSort (emitSort S d) :=
+  (renderSort_emitSort S d).symm
+
+/-- running the emitted `sort` statements on an object computes the model's sort of its members -/
+theorem emitted_sort_eq_sort (S : Schema) (T : String → Bytes → Bytes) (rec : Rec) (recSort : String → Val → R Val)
+    (hwf : WF S = true) (hwg : WFG S = true) (ty : String) (d : StructDef) (hfind : S.find ty = some (.struct d))
+    (vs : List (String × Val)) (hshape : shapeOk d vs = true) (hdecl : sortDeclOk S d = true)
+    (hobj : sortObjOk S rec d vs = true) (vs' : List (String × Val)) :
+    emittedSort S T rec recSort d vs = .ok vs' ↔ sortStructStep S T rec recSort d vs = .ok vs' :=
+  emittedSort_iff (sortCtx_of hwg (wfStruct_iff (WF_struct hwf hfind)).names hfind hshape hdecl hobj) recSort vs'
+
+/-- every struct of the schema satisfies `sortDeclOk` -/
+def SortDeclOk (S : Schema) : Bool := S.all fun nt => match nt.2 with | .struct d => sortDeclOk S d | _ => true
+
+theorem symbol_sort_decl : SortDeclOk Generated.Symbol.schema = true := by decide +kernel
+
+theorem nem_sort_decl : SortDeclOk Generated.Nem.schema = true := by decide +kernel
+
+/-! ### the emitted alias and enum classes
+
+`intAliasClass` / `bytesAliasClass` / `enumClass` (EmissionScalar.lean): the method bodies are rendered from
+`emitScalar`; the constructors (`BaseValue`, `ByteArray`, `Enum` / `Flag`: library code) are modelled by the checks they
+make (`ScalarCtor.build`); `a.ctor.holds v`: `v` is an object of the class. -/
+
+/-- the class texts, with the bodies of `deserialize` / `serialize` / `size` rendered from the abstract class -/
+theorem scalar_text_is_render :
+    (∀ name w s, intAliasClass name w s =
+      classLines name "(BaseValue)" [["SIZE = " ++ toString (intAliasAst name w s).size]] [
+        { name := "__init__", args := [printerName (underlineName name) ++ ": int = 0"],
+          body := ["super().__init__(self.SIZE, " ++ printerName (underlineName name) ++ ", " ++ name ++ ")"] },
+        { annotations := ["@classmethod"], name := "deserialize", args := payloadArgs, result := name,
+          body := (intAliasAst name w s).deserializeBody },
+        { name := "serialize", result := "bytes", body := (intAliasAst name w s).serializeBody }]) ∧
+    (∀ name n, bytesAliasClass name n =
+      classLines name "(ByteArray)" [["SIZE = " ++ toString (bytesAliasAst name n).size]] [
+        { name := "__init__", args := [printerName (underlineName name) ++ ": StrBytes = bytes(" ++ toString n ++ ")"],
+          body := ["super().__init__(self.SIZE, " ++ printerName (underlineName name) ++ ", " ++ name ++ ")"] },
+        { annotations := ["@property"], name := "size", result := "int", body := (bytesAliasAst name n).sizeBody.getD [] },
+        { annotations := ["@classmethod"], name := "deserialize", args := payloadArgs, result := name,
+          body := (bytesAliasAst name n).deserializeBody },
+        { name := "serialize", result := "bytes", body := (bytesAliasAst name n).serializeBody }]) ∧
+    (∀ name w s b ms, enumClass name w s b ms =
+      classLines name (if b then "(Flag)" else "(Enum)") (ms.map fun m => [m.1 ++ " = " ++ toString m.2]) [
+        { annotations := ["@property"], name := "size", result := "int", body := (enumAst name w s b ms).sizeBody.getD [] },
+        { annotations := ["@classmethod"], name := "deserialize", args := payloadArgs, result := name,
+          body := (enumAst name w s b ms).deserializeBody },
+        { name := "serialize", result := "bytes", body := (enumAst name w s b ms).serializeBody },
+        { name := "to_json", body := ["return " ++ (if w == 8 then "str(self.value)" else "self.value")] }]) :=
+  ⟨intAliasClass_eq, bytesAliasClass_eq, enumClass_eq⟩
+
+/-- `serialize` and `size` of an alias / enum object are the interpreter's -/
+theorem emitted_scalar_serialize_size (S : Schema) (T : String → Bytes → Bytes) (rec : Rec) (ty : String) (t : TypeDef)
+    (hfind : S.find ty = some t) (a : ScalarAst) (ha : emitScalar ty t = some a) (v : Val) (hv : a.ctor.holds v = true) :
+    emittedScalarSerialize a v = encTypeStep S T rec ty v ∧ emittedScalarSize a v = typeSizeStep S rec ty v :=
+  ⟨emittedScalarSerialize_eq hfind ha hv, emittedScalarSize_eq hfind ha hv⟩
+
+/-- `deserialize` of an alias / enum class is the interpreter's decoding, for every byte string -- for integer aliases
+    declared unsigned: the generated constructor passes no `signed` to `BaseValue`, whose range check is then the
+    unsigned one, so a signed alias cannot hold (nor read) a negative value (the shipped schemas alias unsigned
+    integers only) -/
+theorem emitted_scalar_deserialize (S : Schema) (T : String → Bytes → Bytes) (rec : Rec) (ty : String) (t : TypeDef)
+    (hfind : S.find ty = some t) (a : ScalarAst) (ha : emitScalar ty t = some a) (hunsigned : ∀ w, t ≠ .int w true)
+    (payload : Bytes) : emittedScalarDeserialize a payload = decTypeStep S T rec ty payload :=
+  emittedScalarDeserialize_eq hfind ha hunsigned payload
+
+/-- the signed alias: `int8` read from `FF` is -1 for the interpreter, a `ValueError` in the emitted class -/
+example :
+    (match emittedScalarDeserialize (intAliasAst "Delta" 1 true) [255],
+        decTypeStep [("Delta", .int 1 true)] C01.Examples.idT noRec "Delta" [255] with
+      | .error .overflow, .ok (.int (-1)) => true
+      | _, _ => false) = true := by decide +kernel
+
 theorem symbol_wff : WFF Generated.Symbol.schema = true := by decide +kernel
 
 theorem nem_wff : WFF Generated.Nem.schema = true := by decide +kernel
@@ -436,6 +518,20 @@ example :
      (match emittedCreateByName S "Transaction" "transfer_transaction_v1", emittedCreateByName S "Transaction" "nope" with
        | .ok "TransferTransactionV1", .error .factory => true
        | _, _ => false)) = true := by decide +kernel
+
+/-- a transfer whose mosaics are out of order: the hypotheses of `emitted_sort_eq_sort` hold (so the emitted `sort`
+    orders them as the model does; `List.mergeSort` does not evaluate in the kernel, the execution is compared by
+    harness/c12.py), and the one statement of the class as rendered -/
+example :
+    (let S := Generated.Symbol.schema
+     let r := recN S C01.Examples.idT (defaultFuel S)
+     match C01.Examples.transfer, S.find "TransferTransactionV1" with
+     | .struct _ vs, some (.struct d) =>
+       let unsorted := vs.map fun nv => match nv.2 with | .arr l => (nv.1, Val.arr l.reverse) | _ => nv
+       shapeOk d unsorted && sortDeclOk S d && sortObjOk S r d unsorted &&
+       renderSort (emitSort S d) ==
+         ["self._mosaics = sorted(self._mosaics, key=lambda e: e.mosaic_id.comparer() if hasattr(e.mosaic_id, 'comparer') else e.mosaic_id)"]
+     | _, _ => false) = true := by decide +kernel
 
 /-- both arms of a union read through the temporary buffer (`duration` / `parent_id` before `registration_type`) -/
 example : emittedReads Generated.Symbol.schema (C01.Examples.nsReg 0) [5, 5] = true ∧
